@@ -27,6 +27,14 @@ fn main() {
         s.require("overflow-via-async-send", 5000);
         s.require("e7:stalled-worker", 200);
         s.require("e7:handed-back", 50);
+            // artifacts of the libFuzzer target `chan_c09` (engine E6 over E2) are replayed through the same entry
+            s.manual("fuzz-artifact", Vec::<Vec<u8>>::new(), |bytes, cx| {
+                cx.nontrivial(true);
+                match chan::fuzz::entry(bytes, Prop::C09) {
+                    Ok(()) => Ok(()),
+                    Err(f) => cx.fail(f.sig, format!("{}; decoded case: {:?}", f.msg, chan::fuzz::decode(bytes))),
+                }
+            });
             s.gen("e2-random", s.n(400_000, 12_000_000), || e2::case(e2::W_C09), |c, cx| e2::check(c, Prop::C09, cx));
             let max_len = if s.quick() { 6 } else { 7 };
             s.enumerate("e2-small-scope", e2::small_cases(max_len, &[1, 2]), |c, cx| e2::check(&c.to_case(), Prop::C09, cx));
